@@ -3857,6 +3857,9 @@ func (vm *Thread) opEqualInt() {
 	if left.IsSmallInt() {
 		left := left.AsSmallInt()
 		result = left.EqualVal(right)
+	} else if left.IsFloat() {
+		// the compiler emits EQUAL_INT for `==` on Float operands as well
+		result = left.AsFloat().EqualVal(right)
 	} else {
 		leftBig := left.AsReference().(*value.BigInt)
 		result = leftBig.EqualVal(right)
